@@ -405,6 +405,46 @@ Example C11_chain_nonvacuous :
   = ( Some (Plain 1), Some (Plain 1), Some (Plain 1), None, [ DONE ] ).
 Proof. vm_compute. reflexivity. Qed.
 
+(* ---- content: staging preserves it ----
+   A file is its content (the harness identifies a content id with the exact
+   bytes: size and every byte).  Every task the agent input stager hands on
+   (AGENT_SCHEDULING_PENDING) was staged successfully in some state fsx, and in
+   the state its staging left every path holds what the LAST directive writing
+   it put there -- the content its source had when that directive ran
+   (C11_action_staged) -- and every other file is untouched.  Lists of
+   copy/link directives on files, of any length; MOVE, TARBALL and directory
+   trees are covered per directive (C11_action_staged,
+   C11_tarball_unpacked_in_place + C11_tarball_members, C11_directory_action_staged)
+   and in sequence by C11_order_given / C11_sequence_staged_on_demand. *)
+Theorem C11_passed_input_has_content :
+  forall l fs,
+    let '(_, pushed, _) := handle_loop agent_si_handle (fun _ => [AGENT_SCHEDULING_PENDING]) l fs in
+    Forall (fun t' => exists t0 fsx,
+              In t0 l /\ t' = advance t0 AGENT_SCHEDULING_PENDING /\ h_ok (agent_si_handle t0 fsx) = true /\
+              let ds := filter (has_action [Link; Copy; Move; Tarball]) (t_in t0) in
+              (forallb keeps ds = true -> files_only (agent_in_step t0) ds fsx = true ->
+               List.length (h_log (agent_si_handle t0 fsx)) = List.length ds /\
+               forall q, file_at q (h_fs (agent_si_handle t0 fsx)) =
+                         match last_write q (h_log (agent_si_handle t0 fsx)) with
+                         | Some c => Some c
+                         | None => file_at q fsx
+                         end)) pushed.
+Proof. exact passed_input_content. Qed.
+Print Assumptions C11_passed_input_has_content.
+
+(* the client packs the sources of ALL TARBALL directives of the task: each has
+   its member in the tarball, named by its resolved target and carrying the
+   content of its resolved source (the agent then unpacks every member:
+   C11_tarball_unpacked_in_place) *)
+Theorem C11_tarball_members :
+  forall sctx tctx l have fs na m,
+    tar_filter sctx tctx l have fs = Some (na, m) ->
+    forall d, In d l -> action_eqb (s_act d) Tarball = true ->
+    exists s g z, complete_url sctx (s_src d) = inr s /\ complete_url tctx (s_tgt d) = inr g /\
+                  file_at (r_comps s) fs = Some (Plain z) /\ In (r_comps g, z) m.
+Proof. exact tar_filter_members. Qed.
+Print Assumptions C11_tarball_members.
+
 (* ---- failed tasks ---- *)
 
 (* output directives of tasks that did not end DONE and did not ask for
